@@ -970,6 +970,10 @@ def write_evidence(prop, tier, seed, results, files, wall, violations=0, note=""
                            "assert!, overflow, index, unwrap, division) is an obligation",
             "obligations": sum(r.get("properties", 0) for r in results),
             "discharged": sum(r.get("proved", 0) for r in results),
+            "expected_failures_of_vacuity_twins": sum(1 for r in results if r["verdict"] == "reachable"),
+            "obligations_note": "obligations - discharged = one deliberately violated end-of-body "
+                                "assertion per reachable vacuity twin (plus anything listed under "
+                                "inconclusive / violations)",
             "harnesses": len(results),
             "harnesses_proved": sum(1 for r in results if r["verdict"] == "proved"),
             "twins_reachable": sum(1 for r in results if r["verdict"] == "reachable"),
